@@ -3,11 +3,12 @@
 # Evidence and replay files of these runs go to a scratch directory (GOVC_OUT), never to /verif/evidence:
 # committed evidence must come from the unchanged tree.
 patch=$1; shift
-git -C /repo diff --quiet || { echo "/repo has uncommitted changes (commit the contract files first)"; exit 2; }
+test -z "$(git -C /repo status --porcelain)" || { echo "/repo has uncommitted changes (commit the contract files first)"; exit 2; }
 cd /repo && git apply "$patch" || exit 2
 cd /verif
 out=$(mktemp -d /tmp/tryseed.XXXXXX)
 for p in "$@"; do GOVC_OUT=$out bin/govc check $p 2>&1 | grep -v "^note" | grep "VIOLATION\|KNOWN-FINDING\|tier=\|UNDECIDED" | cut -c1-300 | tail -12; done
 rm -rf $out
 git -C /repo checkout -- .
+git -C /repo clean -fdq
 git -C /repo status --short | head -3
